@@ -203,7 +203,8 @@ def run(ctx):
     cfgu = ctx.cfg(up)
 
     def toplevel(fc):
-        e, pol = fact_atom(fc)
+        from sa.util import presence_fact
+        e, pol = presence_fact(fc)
         return isinstance(e, ast.Attribute) and e.attr == "parent" and pol is False
     if len(att) == 1 and len(rst) == 1 and all(cfgu.guarded(x, toplevel) for x in cfgu.nodes_for(att[0])) \
             and isinstance(rst[0].value, ast.List) and not rst[0].value.elts and att[0]._parent is rst[0]._parent \
